@@ -18,9 +18,10 @@ pub fn init() {
 
 /// semantic oracle failed: save the structured case for `./check <ID> replay`, then crash
 pub fn report(id: &str, case_json: serde_json::Value, what: &str) -> ! {
-    let _ = std::fs::create_dir_all("/verif/replays");
+    let dir = lsmv::util::verif_root().join("replays");
+    let _ = std::fs::create_dir_all(&dir);
     let h = lsmv::util::fnv(case_json.to_string().as_bytes());
-    let p = format!("/verif/replays/{id}-fuzz-{h:016x}.json");
+    let p = dir.join(format!("{id}-fuzz-{h:016x}.json")).display().to_string();
     let v = serde_json::json!({"property": id, "kind": "fuzz", "case": case_json, "failure": {"op_index": 0, "what": what}});
     let _ = std::fs::write(&p, serde_json::to_string_pretty(&v).unwrap_or_default());
     let _ = std::panic::take_hook();
